@@ -108,6 +108,47 @@ func drawRSA(rt *rapid.T) (*rsa.PrivateKey, string) {
 	}
 }
 
+// drawRSA3 builds an RSA key with three prime factors (PKCS#1 "multi-prime"; crypto/rsa and the PKCS#1 / PKCS#8 DER forms
+// carry such keys, the KMIP transparent form has room for two primes only). Returns nil when the standard library itself
+// does not take the key through PKCS#1 unchanged (then there is nothing to hold the library under test to).
+func drawRSA3(rt *rapid.T) (*rsa.PrivateKey, string) {
+	bits := rapid.SampledFrom([]int{400, 512, 513}).Draw(rt, "p3bits")
+	for attempt := 0; attempt < 8; attempt++ {
+		var ps []*big.Int
+		for i := 0; i < 3; i++ {
+			ps = append(ps, nextPrime(rapid.SliceOfN(rapid.Byte(), bits/8+1, bits/8+1).Draw(rt, "p3"), bits+i))
+		}
+		if ps[0].Cmp(ps[1]) == 0 || ps[1].Cmp(ps[2]) == 0 || ps[0].Cmp(ps[2]) == 0 {
+			continue
+		}
+		one := big.NewInt(1)
+		phi, n := big.NewInt(1), big.NewInt(1)
+		for _, p := range ps {
+			phi.Mul(phi, new(big.Int).Sub(p, one))
+			n.Mul(n, p)
+		}
+		E := big.NewInt(65537)
+		if new(big.Int).GCD(nil, nil, E, phi).Cmp(one) != 0 {
+			continue
+		}
+		key := &rsa.PrivateKey{PublicKey: rsa.PublicKey{N: n, E: 65537}, D: new(big.Int).ModInverse(E, phi), Primes: ps}
+		ok := false
+		_ = safely(func() error {
+			if key.Validate() != nil {
+				return nil
+			}
+			key.Precompute()
+			back, err := x509.ParsePKCS1PrivateKey(x509.MarshalPKCS1PrivateKey(key))
+			ok = err == nil && key.Equal(back)
+			return nil
+		})
+		if ok {
+			return key, fmt.Sprintf("rsa-%d-three-primes", n.BitLen())
+		}
+	}
+	return nil, ""
+}
+
 var curves = []elliptic.Curve{elliptic.P224(), elliptic.P256(), elliptic.P384(), elliptic.P521()}
 
 func drawECDSA(rt *rapid.T) (*ecdsa.PrivateKey, string) {
@@ -240,9 +281,15 @@ func TestC14Keys(t *testing.T) {
 		var pub crypto.PublicKey
 		var label string
 		var formats []kmipclient.KeyFormat
+		threePrimes := false
 		fname := map[kmipclient.KeyFormat]string{kmipclient.PKCS1: "PKCS1", kmipclient.PKCS8: "PKCS8", kmipclient.SEC1: "SEC1", kmipclient.X509: "X509", kmipclient.Transparent: "Transparent", 0: "default"}
 		if isRSA {
 			k, l := drawRSA(rt)
+			if !public && rapid.IntRange(0, 7).Draw(rt, "threeprimes") == 0 {
+				if k3, l3 := drawRSA3(rt); k3 != nil {
+					k, l, threePrimes = k3, l3, true
+				}
+			}
 			priv, pub, label = k, &k.PublicKey, l
 			if public {
 				formats = []kmipclient.KeyFormat{0, kmipclient.PKCS1, kmipclient.X509, kmipclient.Transparent}
@@ -295,6 +342,11 @@ func TestC14Keys(t *testing.T) {
 			return
 		}
 		pl, err := ex.Build()
+		if err != nil && threePrimes && f&kmipclient.Transparent != 0 {
+			// the transparent form has room for two primes: refusing the key is right, registering something else is not
+			rec.Label("three-prime-key-refused-for-transparent-format")
+			return
+		}
 		if err != nil {
 			fail("builder-fails", err)
 			return
@@ -381,23 +433,38 @@ func TestC14Keys(t *testing.T) {
 
 func TestC14Symmetric(t *testing.T) {
 	const name = "TestC14Symmetric"
-	rec := evid.New("C14", name, "symmetric keys and secrets of 0..64 drawn bytes x {RAW, Transparent} x versions x encodings through the same pipeline; oracle: byte equality; "+
+	rec := evid.New("C14", name, "symmetric keys (registered for AES, 3DES, DES, HMAC-SHA256, Blowfish, ChaCha20 or RC4, with drawn lengths or the lengths those algorithms use) and secrets of 0..64 drawn bytes x {RAW, Transparent} x versions x encodings through the same pipeline; oracle: byte equality; "+
 		"non-trivial = transparent or text encoding; distinct by (bytes, format, version, encoding)").Attach(t)
 	rapid.Check(t, func(rt *rapid.T) {
 		ver := rapid.SampledFrom(gen.Versions).Draw(rt, "version")
 		enc := rapid.SampledFrom(encodings).Draw(rt, "encoding")
 		val := gen.Bytes(rt, "key", 64)
 		secret := rapid.Bool().Draw(rt, "secret")
+		// the algorithm a symmetric key is registered for, with a length that algorithm uses one time in two
+		algs := []kmip.CryptographicAlgorithm{kmip.CryptographicAlgorithmAES, kmip.CryptographicAlgorithmAES, kmip.CryptographicAlgorithm3DES, kmip.CryptographicAlgorithmDES,
+			kmip.CryptographicAlgorithmHMACSHA256, kmip.CryptographicAlgorithmBlowfish, kmip.CryptographicAlgorithmChaCha20, kmip.CryptographicAlgorithmRC4}
+		alg := rapid.SampledFrom(algs).Draw(rt, "algorithm")
+		if !secret && rapid.Bool().Draw(rt, "usual-length") {
+			n := map[kmip.CryptographicAlgorithm][]int{kmip.CryptographicAlgorithmAES: {16, 24, 32}, kmip.CryptographicAlgorithm3DES: {16, 24}, kmip.CryptographicAlgorithmDES: {8},
+				kmip.CryptographicAlgorithmChaCha20: {32}}[alg]
+			if n != nil {
+				val = rapid.SliceOfN(rapid.Byte(), 1, 1).Draw(rt, "fill")
+				val = bytes.Repeat(val, rapid.SampledFrom(n).Draw(rt, "usual"))
+				for i := range val {
+					val[i] += byte(i * 7)
+				}
+			}
+		}
 		f := rapid.SampledFrom([]kmipclient.KeyFormat{0, kmipclient.RAW, kmipclient.Transparent}).Draw(rt, "format")
 		cl := versionClient(ver)
-		c := map[string]any{"bytes": hex.EncodeToString(val), "format": int(f), "version": ver.String(), "encoding": enc, "secret": secret}
-		rec.Case(f == kmipclient.Transparent || enc != "binary", []byte(fmt.Sprint(c)), "enc="+enc, fmt.Sprintf("len=%d", len(val)))
+		c := map[string]any{"bytes": hex.EncodeToString(val), "format": int(f), "version": ver.String(), "encoding": enc, "secret": secret, "algorithm": ttlv.EnumStr(alg)}
+		rec.Case(f == kmipclient.Transparent || enc != "binary", []byte(fmt.Sprint(c)), "enc="+enc, fmt.Sprintf("len=%d", len(val)), "algorithm="+ttlv.EnumStr(alg))
 		var ex kmipclient.ExecRegister
 		if err := safely(func() error {
 			if secret {
 				ex = cl.Register().WithKeyFormat(f).Secret(kmip.SecretDataTypePassword, val)
 			} else {
-				ex = cl.Register().WithKeyFormat(f).SymmetricKey(kmip.CryptographicAlgorithmAES, kmip.CryptographicUsageEncrypt, val)
+				ex = cl.Register().WithKeyFormat(f).SymmetricKey(alg, kmip.CryptographicUsageEncrypt, val)
 			}
 			return nil
 		}); err != nil {
